@@ -41,7 +41,7 @@ Print Assumptions C11_model_is_source_merge_min_get_plate_sample_id.
 (* MergeMinPlateSmoother._smooth_plates (retrospective.py): the loop over the samples, the comprehension building the
    heap (through the translated _get_plate_sample_id), the `while True:` with its two `break`s (len <= 1; sum of the two
    smallest sizes > min_size), the two heappops, the merge of the second smallest WITH the smallest, the push.
-   The `while` is translated into recursion on the explicit fuel [fuel] (Err 98 if it ran out, which is not a Python
+   The `while` is translated into recursion on the explicit fuel [fuel] (Err 97 if it ran out, which is not a Python
    behaviour); with more fuel than the screen has experiments (e.g. fuel = S (length rows)) the translation equals
    the model for every min_size, screen and answer stream - the model's own fuel (the heap size) is sufficient *)
 Theorem C11_model_is_source_merge_min_smooth_plates : forall min_size rows ds fuel,
